@@ -175,6 +175,66 @@ def heap_shared(h):
     return any(c > 1 for c in indeg.values())
 
 
+# --------------------------------------------------------------------------
+# pop(key, default) where the default IS the object stored: the merged cache's own
+# value fetched through the public get() (a DataProxy proxies get to its dict, so
+# lists and sub-dicts come out as the very objects held); for None / bools / small
+# ints / one-character strings the literal written in the case is that object anyway
+# --------------------------------------------------------------------------
+IDENTICAL = {"n": [None], "b": [True, False], "i": [0, 1, 7], "s": ["", "v"]}
+
+
+def unwrap(op):
+    return op[2] if op[0] == "via" else op
+
+
+class Sess11(cc.Session):
+    """cc.Session plus ``["pop", fl, kp, k, {"d": fallback, "same": 1}]``: the default handed
+    to pop() is the object currently stored under the key (the fallback when the key is
+    absent).  For the code under test the default is irrelevant when the key exists, so the
+    model's term is the plain ``Pop fl kp k (Some fallback)``; what the flag adds is the
+    object IDENTITY between the default and the stored value.  ``last_pop`` says what the
+    last pop-with-default met (for the input distribution)."""
+    last_pop = None
+
+    def run_op(self, cfg, op, rng=None, base=None):
+        if op[0] == "pop" and isinstance(op[4], dict):
+            obj = self.nav(cfg if base is None else base, op[1], op[2], rng)
+            present = hasattr(obj, "keys") and hasattr(obj, "pop") and op[3] in obj
+            stored = obj.get(op[3]) if present else None
+            dflt = stored if (present and op[4].get("same")) else cc._uj(op[4]["d"])
+            self.last_pop = ("missing" if not present else
+                             "default-is-stored-object" if dflt is stored else
+                             "default-equal" if _same_value(dflt, stored) else "default-differs")
+            v = obj.pop(op[3], dflt)
+            return cfg, {"val": cc._rec(v)}
+        return super().run_op(cfg, op, rng, base)
+
+
+def _same_value(a, b):
+    try:
+        return type(a) is type(b) and bool(a == b)
+    except Exception:
+        return False
+
+
+def tail_label(case, last_pop):
+    """what stands right before the clone (input distribution)"""
+    if not case["pre"]:
+        return None
+    top = case["pre"][-1]
+    op = unwrap(top)
+    where = "@held" if top[0] == "via" else \
+        ("@nested" if (len(op) > 2 and isinstance(op[2], list) and op[2]) else "@top")
+    if op[0] == "pop":
+        if op[4] is None:
+            return "pop(k)" + where
+        return "pop(k,d):" + (last_pop or "not-reached") + where
+    if op[0] in ("setdefault", "popitem", "clear", "del"):
+        return op[0] + where
+    return None
+
+
 class C11(Prop):
     id = "C11"
     corr_module = "Corr.C11Corr"
@@ -183,7 +243,13 @@ class C11(Prop):
     shard_size = 100
     rule = ("a C06-style history (all mutators, held proxies, reloads; type-consistent by schema) builds the "
             "state, then clone() -- 35% into a subclass whose global defaults overlap the original's -- then "
-            "0-10 operations on either object (held proxies of the original stay usable); observed: the ten "
+            "0-10 operations on either object (held proxies of the original stay usable); in 42% of these "
+            "cases the history ENDS, right before the clone (nothing in between re-merges the original), in a "
+            "removal or default-taking call -- pop(key, default) whose default is the very object stored (the "
+            "cache's own value fetched through get(): None, bools, ints, strings, list leaves, whole sections), "
+            "an equal literal (after a write of None/True/0/''/'v'), another value, a missing key; pop(key), "
+            "setdefault, popitem, clear -- at top level, in nested sections or through a proxy held since just "
+            "before, and both objects are read back at that place right after the clone; observed: the ten "
             "levels and both deep views at the clone, both deep views after every later step, and a snapshot "
             "[every third case instead: an object graph (dicts deliberately sharing sub-dict objects, empty "
             "placeholder sections), one call of the real merge_dicts / copy_dict / Config.clone, and the object "
@@ -285,9 +351,22 @@ class C11(Prop):
         if any((o[2] if o[0] == "via" else o)[0] in ("rawset", "leafappend") for o in pre) or \
                 any(o[0].endswith("_d") or o[0].startswith("set_") for o in pre):
             pre.append(["merge"])
+        # right before the clone (nothing in between re-merges the original): a removal or a
+        # default-taking call -- pop(key, default) with the default being the very object stored,
+        # an equal literal, another value, a missing key; setdefault, popitem, clear, pop(key) --
+        # at top level, in nested sections and through a proxy held since just before;
+        # then both objects are read back at the place touched
         post = []
+        if rng.random() < 0.42:
+            cur = case["init"].get("defaults") or {}
+            for o in pre:
+                if o[0] in ("load_defaults", "load_defaults_d"):
+                    cur = o[1]
+            tail, reads = self.gen_tail(g, rng, cur)
+            pre.extend(tail)
+            post.extend(reads)
         handles = {False: dict(g.handles), True: {}}
-        for _ in range(rng.randint(0, 10)):
+        for _ in range(rng.randint(0, 10 if not post else 7)):
             side = rng.random() < 0.5
             g.handles = handles[side]
             r = rng.random()
@@ -329,6 +408,98 @@ class C11(Prop):
         return {"fs": case["fs"], "init": case["init"], "pre": pre, "into": into, "post": post,
                 "into_const": into is not None and rng.random() < 0.5}
 
+    def gen_tail(self, g, rng, defaults):
+        """(operations that end the history before the clone, read-backs after it)"""
+        ops, reads = [], []
+        for _ in range(rng.choice([1, 1, 1, 2])):
+            nested = [p for p in g.sections() if p and not any(tuple(p[:j]) in g.deleted
+                                                               for j in range(1, len(p) + 1))]
+            abs_kp = tuple(rng.choice(nested)) if (nested and rng.random() < 0.55) else ()
+            node = g.node(abs_kp)
+            sub = defaults
+            for k in abs_kp:
+                sub = sub.get(k) if isinstance(sub, dict) and not cc.is_enc_leaf(sub) else None
+            sub = sub if isinstance(sub, dict) and not cc.is_enc_leaf(sub) else {}
+            likely = [k for k in node if k in sub and tuple(abs_kp) + (k,) not in g.deleted] or list(node)
+            fl = rng.choice(["item", "attr"])
+            kind = rng.choices(["pop-same", "pop-equal", "set-pop-equal", "pop-other", "pop-missing",
+                                "setdefault", "popitem", "clear", "pop"],
+                               [38, 12, 10, 9, 8, 8, 6, 4, 5])[0]
+            if not likely and kind in ("pop-same", "pop-equal", "pop-other", "pop"):
+                kind = "pop-missing"
+            held = bool(abs_kp) and rng.random() < 0.2
+            kp = [] if held else list(abs_kp)
+            seq, k = [], None
+            if kind == "pop-same":
+                k = rng.choice(likely)            # a leaf, a list leaf or a whole section
+                seq.append(["pop", fl, kp, k, {"d": rng.choice([None, 1, "v"]), "same": 1}])
+            elif kind == "pop-equal":
+                k = rng.choice(likely)
+                v = sub.get(k)
+                if isinstance(v, dict) and not cc.is_enc_leaf(v):
+                    seq.append(["pop", fl, kp, k, {"d": None, "same": 1}])
+                else:                             # the literal the defaults level holds
+                    seq.append(["pop", fl, kp, k, {"d": copy.deepcopy(v)}])
+            elif kind == "set-pop-equal":
+                leaves = [x for x in node if not isinstance(node[x], dict) and node[x] in IDENTICAL]
+                if leaves and rng.random() < 0.8:
+                    k = rng.choice(leaves)
+                else:
+                    k = rng.choice([x for x in g.keys + ["z", "w"] if x not in node] or ["zz"])
+                    if k not in node:
+                        node[k] = rng.choice("nbis")
+                if isinstance(node[k], dict) or node[k] not in IDENTICAL:
+                    k, node["zq"] = "zq", "i"
+                v = rng.choice(IDENTICAL[node[k]])
+                seq.append(["set", rng.choice(["item", "attr"]), kp, k, v])
+                seq.append(["pop", fl, kp, k, {"d": v}])
+            elif kind == "pop-other":
+                k = rng.choice(likely)
+                seq.append(["pop", fl, kp, k, {"d": cc.leaf(rng, "isn")}])
+            elif kind == "pop-missing":
+                k = rng.choice([x for x in g.keys + ["z", "w"] if x not in node] or ["zz"])
+                if k not in node:
+                    node[k] = rng.choice("is")
+                d = {"d": rng.choice([None, 1, "v", 0, ""])}
+                if rng.random() < 0.5:
+                    d["same"] = 1
+                seq.append(["pop", fl, kp, k, d])
+            elif kind == "pop":
+                k = rng.choice(likely)
+                seq.append(["pop", fl, kp, k, None])
+            elif kind == "setdefault":
+                k = g.pick_key(abs_kp, want_leaf=True, p_fresh=0.5)
+                v, isd = g.value_for(abs_kp, k)
+                if isd:
+                    g.kill(abs_kp + (k,), True)
+                seq.append(["setdefault", fl, kp, k, {"d": v}])
+            elif kind == "popitem":
+                seq.append(["popitem", fl, kp])
+            else:
+                seq.append(["clear", fl, kp])
+            if held:
+                h = 80 + g.next_h
+                g.next_h += 1
+                ops.append(["hold", h, rng.choice(["item", "attr"]), list(abs_kp)])
+                seq = [["via", h, o] for o in seq]
+            ops.extend(seq)
+            if kind in ("popitem", "clear"):
+                for x in list(node):
+                    g.kill(abs_kp + (x,))
+            elif kind != "setdefault":
+                g.kill(abs_kp + (k,))
+            if held:
+                g.handles[h] = tuple(abs_kp)      # still in scope: its own section was not removed
+            # read both objects back where the call acted
+            rfl = rng.choice(["item", "attr"])
+            rd = rng.choice([["contains", rfl, list(abs_kp), k], ["getm", rfl, list(abs_kp), k, {"d": "dflt"}],
+                             ["get", rfl, list(abs_kp), k]] if k is not None else
+                            [["keys", rfl, list(abs_kp), "keys"], ["len", rfl, list(abs_kp)]])
+            first = rng.random() < 0.5
+            reads.append([first, copy.deepcopy(rd)])
+            reads.append([not first, copy.deepcopy(rd)])
+        return ops, reads
+
     def generate(self, rng, tier, n):
         for i in range(n):
             if i % 3 == 2:
@@ -341,7 +512,22 @@ class C11(Prop):
                 "rt": None, "lazy": False}
         pres = [[], [["del", "item", [], "k"]], [["del", "item", ["a"], "x"]], [["set", "item", ["a"], "z", 5]],
                 [["set", "item", [], "n", {"m": 1}]], [["pop", "attr", ["o"], "p", None]],
-                [["hold", 0, "item", ["a"]], ["set", "item", [], "k", 2]]]
+                [["hold", 0, "item", ["a"]], ["set", "item", [], "k", 2]],
+                # removals / default-taking calls right before the clone: the default is the literal
+                # stored (1 is 1, 0 is 0, None is None), the stored object itself (a leaf, a whole
+                # section), another value, a missing key; through a held proxy; setdefault, popitem, clear
+                [["pop", "item", [], "k", {"d": 1}]], [["pop", "attr", ["a"], "x", {"d": 0}]],
+                [["set", "item", ["a"], "z", None], ["pop", "item", ["a"], "z", {"d": None}]],
+                [["set", "attr", [], "t", True], ["pop", "attr", [], "t", {"d": True}]],
+                [["set", "item", [], "s", "v"], ["pop", "item", [], "s", {"d": "v"}]],
+                [["pop", "item", ["o"], "p", {"d": None, "same": 1}]], [["pop", "item", [], "a", {"d": None, "same": 1}]],
+                [["pop", "item", [], "k", {"d": 2}]], [["pop", "item", [], "zz", {"d": None}]],
+                [["pop", "item", ["a"], "zz", {"d": 1, "same": 1}]],
+                [["hold", 0, "item", ["a"]], ["via", 0, ["pop", "item", [], "y", {"d": 0}]]],
+                [["setdefault", "item", ["a"], "x", {"d": 0}]], [["setdefault", "item", ["a"], "w", {"d": 1}]],
+                [["setdefault", "attr", [], "nn", None]],
+                [["popitem", "item", []]], [["popitem", "item", ["a"]]], [["clear", "item", []]],
+                [["clear", "attr", ["a"]]]]
         posts = [[], [[True, ["set", "item", ["a"], "x", 9]]], [[False, ["set", "item", ["a"], "x", 9]]],
                  [[True, ["del", "item", [], "a"]]], [[False, ["del", "item", ["o"], "p"]]],
                  [[True, ["set", "item", ["o"], "p", 7]]], [[False, ["load_overrides", {"o": {"p": 3}}]]],
@@ -380,16 +566,18 @@ class C11(Prop):
         if case.get("kind") == "heap":
             return run_heap(case)
         rng = random.Random(1)
-        s = cc.Session({"fs": case["fs"], "init": case["init"], "ops": []}, keep_sources=True)
+        s = Sess11({"fs": case["fs"], "init": case["init"], "ops": []}, keep_sources=True)
         try:
             try:
                 cfg = s.construct()
             except Exception as e:
                 return {"noobject": type(e).__name__}
             for n, op in enumerate(case["pre"]):
+                s.last_pop = None
                 cfg, out = s.try_op(cfg, op, rng)
                 if cc.abnormal(out):
                     return {"aborted": n}
+            tail = tail_label(case, s.last_pop)
             try:
                 if case["into"] is None:
                     cl = cfg.clone()
@@ -436,6 +624,8 @@ class C11(Prop):
                     break
             if why:
                 obs["why"] = why[:3]
+            if tail:
+                obs["tail"] = tail
             return obs
         finally:
             s.close()
@@ -480,6 +670,8 @@ class C11(Prop):
                                     "+err:" + obs["err"] if "err" in obs else "")
         if "vo" not in obs:
             return next(iter(obs))
+        if obs.get("tail"):       # what stands right before the clone
+            return "clone%s right after %s" % ("-into" if case["into"] is not None else "", obs["tail"])
         return "clone%s post:%s" % ("-into" if case["into"] is not None else "",
                                     "0" if not case["post"] else ("1-4" if len(case["post"]) <= 4 else "5+"))
 
@@ -534,6 +726,21 @@ class C11(Prop):
                 for i in range(len(node)):
                     yield dict(case, h0=h[:a] + [node[:i] + node[i + 1:]] + h[a + 1:])
             return
+        # big cuts first (each round costs one shard evaluation)
+        if case["post"]:
+            yield dict(case, post=[])
+        n = len(case["pre"])
+        for cut in (n - 1, n - 2, (3 * n) // 4, n // 2, n // 4):
+            if 0 < cut < n:
+                yield dict(case, pre=case["pre"][cut:])
+        if case["fs"]:
+            yield dict(case, fs=[])
+        for key in ("pre", "post"):          # blocks (halves, quarters, eighths) before single operations
+            ops = case[key]
+            for size in (len(ops) // 2, len(ops) // 4, len(ops) // 8):
+                if size >= 2:
+                    for a in range(0, len(ops), size):
+                        yield dict(case, **{key: ops[:a] + ops[a + size:]})
         for key in ("post", "pre"):
             ops = case[key]
             for i in range(len(ops)):
@@ -552,6 +759,13 @@ class C11(Prop):
             for _ in range(20):
                 yield gen_heap_case(rng)
             return
+        paths = [p for p, _ in gt.leaf_paths(cc.unjson(case["init"].get("defaults") or {})) if p]
+        for p in [q[:n] for q in paths for n in range(1, len(q) + 1)][:12]:
+            c = copy.deepcopy(case)          # a removal right before the clone, default = the stored object
+            c["pre"].append(["pop", rng.choice(["item", "attr"]), list(p[:-1]), p[-1], {"d": None, "same": 1}])
+            c["post"] = [[False, ["contains", "item", list(p[:-1]), p[-1]]],
+                         [True, ["contains", "item", list(p[:-1]), p[-1]]]] + c["post"]
+            yield c
         for _ in range(20):
             c = copy.deepcopy(case)
             if c["pre"] and rng.random() < 0.5:
